@@ -147,8 +147,11 @@ CORPUS = [
     ('int-huge-passing', _assert('exit-code != 10**4300'), None),
     ('int-huge-failing', _assert('exit-code == 10**4300'), None),
     ('int-huge-num-lines', _assert('stdout num-lines == 10**5000'), None),
-    ('int-huge-timeout', '[setup]\ntimeout = 10**400\nrun % true\n' + ACT, None),
-    ('int-huge-timeout-act', '[setup]\ntimeout = 10**4300\n' + ACT, None),
+    ('int-huge-timeout', '[setup]\ntimeout = 10**400\nrun % true\n' + ACT, 'VALIDATION', 2),
+    ('int-huge-timeout-act', '[setup]\ntimeout = 10**4300\n' + ACT, 'VALIDATION', 2),
+    ('int-huge-negative-timeout', '[setup]\ntimeout = -10**4300\n' + ACT, None),
+    ('int-system-exit-quit', _assert('exit-code == quit()'), 'VALIDATION', 4),
+    ('int-system-exit-timeout', _setup('timeout = exit(3)'), 'VALIDATION', 2),
     # ---- ranges --------------------------------------------------------------------------------------------------------------
     ('range-three-parts', _assert('stdout -transformed-by filter -line-nums 1:2:3\n is-empty'), 'REJECT', 4),
     ('range-not-int', _assert('stdout -transformed-by filter -line-nums a\n is-empty'), 'VALIDATION', 4),
